@@ -24,6 +24,7 @@ import (
 	"sort"
 	"strings"
 	"testing"
+	"time"
 
 	chunker "github.com/ipfs/boxo/chunker"
 	mdag "github.com/ipfs/boxo/ipld/merkledag"
@@ -748,7 +749,7 @@ var spec = kit.Spec[Case]{
 	Prop: "C10", Name: "main",
 	Rule:  "initial file 0..2 KiB (4 KiB thorough) from balanced/trickle importers or a single pb/raw node (raw/pb leaves, v0/v1, inline-identity), modifier width 2..8 (= the width the file was built with), splitter 4..64, RawLeaves inherit/true/false; <=20 ops Write/WriteAt(off in [0,size+64], weighted to 0, EOF, cursor, inside the pending buffer, beyond EOF)/Seek(3 whences + bad whence)/Read/CtxReadFull/Truncate/Size/Sync/GetNode + final GetNode; Size() compared after every op; oracle = set of admissible (content,cursor) states; non-trivial = a WriteAt starting inside the data of the immediately preceding unflushed write(s), or a non-empty write starting beyond EOF, or Truncate to 0<s<size of a file longer than width x chunk bytes",
 	Quick: 3000, Thorough: 8000,
-	Gen: gen, Run: run, Journal: true,
+	Gen: gen, Run: run, Journal: true, HangTimeout: 120 * time.Second,
 }
 
 func TestProp(t *testing.T) { kit.All(t, spec) }
